@@ -90,6 +90,8 @@ def kinds_for(vtype, build, value=None, level='index', second=False):
         if len(value) > 8:
             ks = [k for k in ks if k not in ('sv', 'bsv', 'h')]
         return ks
+    if vtype == 'S':
+        return ['rt', 'ct'] + (['a'] if all(x is not None for x in value) else [])
     if vtype == 'n':
         return list(SCALAR_KINDS)
     if vtype == 'i':
@@ -200,6 +202,12 @@ def decl_arg(name, vtype, value, kind, salt=0, cx=False, pos=0):
             return ['int %s_raw[%d] = {%s}; auto %s = nm::cast(%s_raw, na::kind::%s);' % (
                 name, n, vals, name, name, 'fixed' if kind == 'f' else 'hybrid')]
         raise ValueError(kind)
+    if vtype == 'S':
+        # one slice: (start, stop) or (start, stop, step); an entry None is nmtools::None
+        if kind == 'a':
+            return ['%sauto %s = nmtools_array<int,%d>{%s};' % (q, name, len(value), ','.join(str(int(x)) for x in value))]
+        el = [('nm::None' if x is None else (ct_lit(x) if kind == 'ct' else str(int(x)))) for x in value]
+        return ['%sauto %s = nmtools_tuple{%s};' % (q, name, ','.join(el))]
     if vtype in ('n', 'i'):
         v = int(value)
         if kind == 'ct':
@@ -271,6 +279,8 @@ _op('shape_concatenate', [IX + 'concatenate.hpp'], [('ashape', 'L'), ('bshape', 
     [[[2, 3], [4, 3], 0], [[2, 3], [4, 3], None]], post='k9::norm_flagged(r)', rep_bad=[[[2, 3], [4, 2], 0]])
 _op('shape_pad', [IX + 'pad.hpp'], [('shape', 'L'), ('pad_width', 'L')], 'ix::shape_pad(shape,pad_width)',
     [[[2, 3], [0, 2, 1, 0]]], rep_bad=[[[2, 3], [0, 2, 1]]])
+_op('shape_slice', [IX + 'slice.hpp'], [('shape', 'L'), ('s0', 'S'), ('s1', 'S')], 'ix::shape_slice(shape,s0,s1)',
+    [[[4, 5], [1, 3], [None, None, 2]], [[4, 5], [0, 4], [1, 5, 2]]])
 
 
 VW = 'nmtools/array/view/'
@@ -330,7 +340,7 @@ def fmtv(v):
     if isinstance(v, bool):
         return '1' if v else '0'
     if isinstance(v, (list, tuple)):
-        return '[]' if len(v) == 0 else ','.join(str(int(x)) for x in v)
+        return '[]' if len(v) == 0 else ','.join('N' if x is None else str(int(x)) for x in v)
     return str(int(v))
 
 
@@ -401,9 +411,10 @@ def emit_tu(cases, build, stubs=()):
     return '\n'.join(out) + '\n'
 
 
-def write_tu(name, cases, build, stubs=()):
-    os.makedirs(GEN_DIR, exist_ok=True)
-    p = os.path.join(GEN_DIR, name + '.cpp')
+def write_tu(name, cases, build, stubs=(), subdir=None):
+    d = os.path.join(GEN_DIR, subdir) if subdir else GEN_DIR
+    os.makedirs(d, exist_ok=True)
+    p = os.path.join(d, name + '.cpp')
     src = emit_tu(cases, build, stubs)
     if not (os.path.exists(p) and open(p).read() == src):
         with open(p, 'w') as f:
@@ -434,6 +445,8 @@ def cx_ok(op, vals, kinds):
         if v is None:
             continue
         if vt in ('L', 'I') and k not in CX_LIST_KINDS:
+            return False
+        if vt == 'S' and k == 'rt' and False:
             return False
         if vt == 'A':
             return False
@@ -478,7 +491,7 @@ def case_line_ranges(src_text):
     return rng
 
 
-def probe(cases, build, tag, repo=None, max_rounds=12):
+def probe(cases, build, tag, repo=None, max_rounds=12, subdir=None):
     """iteratively drop the cases the compiler complains about; returns (ok_cases, {key: error excerpt})"""
     import re
     bad = {}
@@ -486,7 +499,7 @@ def probe(cases, build, tag, repo=None, max_rounds=12):
     for rnd in range(max_rounds):
         if not cases:
             break
-        p = write_tu('probe_%s_%s' % (tag, build), cases, build)
+        p = write_tu('probe_%s_%s' % (tag, build), cases, build, subdir=subdir)
         r = subprocess.run(compile_cmd(build, p, out=p[:-4] + '.o', repo=repo, syntax_only=False), stdout=subprocess.PIPE, stderr=subprocess.STDOUT)
         if r.returncode == 0:
             break
@@ -545,7 +558,12 @@ def pin_reps(op, reps, build, repo, tag):
         step = 60 if OPS[op].level == 'view' else 400
         for j in range(0, len(cs), step):     # big groups make the compiler slow: chunk
             chunk = cs[j:j + step]
-            ok, bad = probe(chunk, build, '%s_%s%d_%d' % (op, tag, ri, j), repo=repo)
+            ok, bad = probe(chunk, build, '%s_%s%d_%d' % (op, tag, ri, j), repo=repo, subdir='pin')
+            for ext in ('.cpp', '.o'):
+                try:
+                    os.remove(os.path.join(GEN_DIR, 'pin', 'probe_%s_%s%d_%d_%s%s' % (op, tag, ri, j, build, ext)))
+                except OSError:
+                    pass
             for c in chunk:
                 if c.key in bad:
                     unsup[c.sig()] = bad[c.key]
@@ -568,6 +586,8 @@ def pin_build(build, ops=None, repo=None):
             res[op]['unsupported_refusal'] = {k: bunsup[k] for k in sorted(bunsup)}
         sys.stderr.write('%s %s: supported %d unsupported %d refusal-supported %d\n' % (
             build, op, len(sup), len(unsup), len(res[op].get('supported_refusal', []))))
+        with open(os.path.join(GEN_DIR, 'pin', 'partial_%s.json' % build), 'w') as f:
+            json.dump(res, f)
     return res
 
 
@@ -578,10 +598,20 @@ def main():
     ap.add_argument('--pin', action='store_true', help='probe every (build, op, kind signature) and rewrite the pin file')
     ap.add_argument('--ops', default='', help='comma separated subset of ops (others keep their pins)')
     ap.add_argument('--jobs', type=int, default=4)
+    ap.add_argument('--merge-partial', action='store_true', help='merge the partial results of an interrupted --pin run')
     a = ap.parse_args()
     if a.pin:
         ops = [o for o in a.ops.split(',') if o] or None
         pins = load_pins()
+        os.makedirs(os.path.join(GEN_DIR, 'pin'), exist_ok=True)
+        if a.merge_partial:
+            for b in BUILDS:
+                pp = os.path.join(GEN_DIR, 'pin', 'partial_%s.json' % b)
+                if os.path.exists(pp):
+                    pins.setdefault(b, {}).update(json.load(open(pp)))
+            with open(PIN_FILE, 'w') as f:
+                json.dump(pins, f, indent=0, sort_keys=True)
+            return
         with ProcessPoolExecutor(max_workers=a.jobs) as ex:
             futs = {b: ex.submit(pin_build, b, ops) for b in BUILDS}
             for b, f in futs.items():
@@ -590,10 +620,6 @@ def main():
             json.dump(pins, f, indent=0, sort_keys=True)
         for b in pins:
             print(b, 'supported', sum(len(v['supported']) for v in pins[b].values()), 'unsupported', sum(len(v['unsupported']) for v in pins[b].values()))
-        # remove probe TUs
-        for fn in os.listdir(GEN_DIR):
-            if fn.startswith('probe_'):
-                os.remove(os.path.join(GEN_DIR, fn))
 
 
 if __name__ == '__main__':
